@@ -116,6 +116,7 @@ type Env struct {
 	Known    []KnownFinding
 	Stats    *Stats
 	Budget   int // cases per shard
+	Census   bool // count every discrepancy signature, never fail (triage aid)
 }
 
 func (e *Env) Thorough() bool { return e.Tier == "thorough" }
@@ -289,6 +290,18 @@ func RunShard(p Property, env *Env) {
 			}
 		}
 		ds := p.Eval(c, outs)
+		if env.Census {
+			for _, d := range ds {
+				env.Stats.Counters["sig:"+d.Sig]++
+				if env.Stats.Counters["sig:"+d.Sig] == 1 && os.Getenv("VERIF_DEBUG_DIR") != "" {
+					r := &Replay{Property: p.ID(), Signature: d.Sig, Detail: d.Detail, Seed: env.Seed, Shard: env.Shard, Tier: env.Tier, Case: *c}
+					b, _ := json.MarshalIndent(r, "", " ")
+					_ = os.MkdirAll(os.Getenv("VERIF_DEBUG_DIR"), 0o755)
+					_ = os.WriteFile(filepath.Join(os.Getenv("VERIF_DEBUG_DIR"), "census-"+shortHash(d.Sig)+".json"), b, 0o644)
+				}
+			}
+			return
+		}
 		for _, d := range ds {
 			if k := matchKnown(env.Known, p.ID(), d.Sig); k != nil {
 				env.Stats.KnownHit[k.Signature]++
